@@ -144,7 +144,8 @@ PROPS["C12"] = {
 }
 
 PROPS["C11"] = {
-    "verus_units": ["scheduler"],
+    "verus_units": ["scheduler", "dsp_tick"],
+    "replay_by_unit": {"dsp_tick": ["schedvm", "sched"]},
     "replay": ["sched", "schedvm"],
     "kani_units": [{
         "unit": "sched", "subst_quick": {}, "subst_thorough": {},
@@ -155,8 +156,9 @@ PROPS["C11"] = {
             {"name": "binaryheap_model_validation", "bound": True, "fn": "std BinaryHeap<Reverse<Task>> vs the trusted Verus model", "doc": "peek = min when; pop removes exactly the peeked element"},
         ],
     }],
-    "floor": {"obligations": 26},
+    "floor": {"obligations": 37},
     "trusted_base": [
+        "unit dsp_tick: VmDspRuntime::run_dsp (driver.rs) and LocalBufferDriver::play (local_buffer.rs) cut verbatim, WasmDspRuntime::run_dsp (engine.rs) from its worker loop to the end of the dsp-result match (rule X5; the statements in front -- saving the allocation pointer, writing current_time into the runtime state -- and behind -- restoring the allocation pointer -- are not in the cut); rule N21 (every element of a vector of trait objects visited by index, `elem.on_sample(..)` -> vx_elem_on_sample(&mut vec, k, ..)), N22 (Option::map_or -> match); TRUSTED reduced models: Machine / WasmEngine (a ghost log of the calls they receive: Worker(k, time) for worker k's on_sample, Dsp for execute_idx / execute_dsp), the workers (trait objects; the scheduler's worker itself is unit scheduler), RuntimeData::run_dsp (one Tick(time) per call: dynamic dispatch to one of the two run_dsp above), Arc<AtomicU64> sample counter as a plain cell (single-threaded offline driver), output-cache copying (vx_top_n_f64, vx_store_output, vx_input_words, vx_output: no contract)",
         "model of std BinaryHeap<T> (multiset + designated top that is a maximum of Ord; peek shows it, pop removes exactly it, push inserts), std Reverse (flips the order), mpsc::Receiver::try_recv (single consumer, no concurrent sender: pops the head or reports empty; modelled with &mut self) -- heap model validated bounded by Kani on the real BinaryHeap",
         "derive(PartialOrd, Ord) on Time(pub u64) compares the field (OrdSpecImpl for Time is assumed)",
         "rule X3 (abstract `H: ExecClosure` handle whose execute_closure appends to a ghost log) for SchedulerAudioWorker::on_sample; rule X2 (the locked `SharedState` becomes a `&mut` parameter) for drain_due_tasks / set_current_time / the _mimium_schedule_at trampoline closure",
@@ -164,14 +166,14 @@ PROPS["C11"] = {
         "vstd Multiset / Seq axioms",
     ],
     "assumptions": [
-        "driver protocol: on_sample is called once per sample with consecutive sample indices, before dsp of that sample (read off run_dsp in driver.rs / engine.rs, not proved)",
+        "driver protocol: PROVED for both run_dsp implementations and the offline driver (unit dsp_tick: every worker's on_sample once per tick, in order, with the tick's time, before dsp; the offline driver presents consecutive sample indices once each); the real-time back ends (cpal callback) and that the SAME time value reaches `now` inside dsp (current_time of the runtime state) are read off, not proved",
         "single-threaded use of the task channel during on_sample (the VM runs the audio worker and the scheduling closures on one thread)",
     ],
     "not_covered": [
         "closure retention across the FFI (resolve_closure, close_upvalues_by_idx, WASM closure memory): whether the closure handle still denotes the scheduled closure when it runs",
-        "WasmDspRuntime::run_dsp / driver.rs ordering (workers before dsp) and the VM FFI behind RuntimeHandle (get_arg_*, resolve_closure, execute_closure)",
+        "the VM FFI behind RuntimeHandle (get_arg_*, resolve_closure, execute_closure); the cpal real-time driver loop (csr / cpal back ends); hot swap in the middle of a run",
     ],
-    "explanation": "C11: SimpleScheduler::schedule_at sends exactly one task (time = f64 argument truncated, closure = resolved handle); both refusal directions are proved (a received / scheduled task that is not in the future never returns normally: contract variants with `ensures false`); WasmSchedulerHandle::on_sample = set time, drain, execute each due closure once in order; Task order is by `when` only (proved); pop_task returns a due task of minimal time and removes exactly it; SchedulerAudioWorker::on_sample and WasmSchedulerHandle::drain_due_tasks execute/return exactly the due multiset in non-decreasing time and keep exactly the rest; the schedule trampoline inserts exactly one task and refuses non-future times; lemma_sample_step lifts the per-sample contract to 'each task runs exactly once, at the sample equal to its time' by induction on the sample index; VM and WASM satisfy the same per-sample contract.",
+    "explanation": "C11 tick protocol (unit dsp_tick): one run_dsp(t) makes every audio worker's on_sample(t, ..) call, in index order, once each, and only then runs dsp -- on the VM runtime and on the WASM runtime; LocalBufferDriver::play calls run_dsp with count, count+1, .. exactly once each and leaves the clock at count + times. C11: SimpleScheduler::schedule_at sends exactly one task (time = f64 argument truncated, closure = resolved handle); both refusal directions are proved (a received / scheduled task that is not in the future never returns normally: contract variants with `ensures false`); WasmSchedulerHandle::on_sample = set time, drain, execute each due closure once in order; Task order is by `when` only (proved); pop_task returns a due task of minimal time and removes exactly it; SchedulerAudioWorker::on_sample and WasmSchedulerHandle::drain_due_tasks execute/return exactly the due multiset in non-decreasing time and keep exactly the rest; the schedule trampoline inserts exactly one task and refuses non-future times; lemma_sample_step lifts the per-sample contract to 'each task runs exactly once, at the sample equal to its time' by induction on the sample index; VM and WASM satisfy the same per-sample contract.",
     "samples": [
         {"obligation": "SchedulerAudioWorker::on_sample::ensures", "clause": "exists ex: log' == log + closures_of(ex) && sorted_by_when(ex) && count(ex) == due part of (heap + inbox) && heap' == later part"},
         {"obligation": "lemma_sample_step", "clause": "none_overdue(p, now) && sample_step(..) ==> executed == tasks with when == now, none_overdue(next, now+1)"},
@@ -220,7 +222,7 @@ PROPS["C13"] = {
     "floor": {"obligations": 115},
     "trusted_base": [
         "ASSUMED contract of the chumsky lexer built in tokenize (vx_chumsky_lex): it always yields a token vector and the spans it hands out tile the input (third-party combinators: outside any verifier's reach); model of chumsky MapExtra::span / SimpleSpan",
-        "ASSUMED contract of split_projection_float_tokens (FnMut closure capturing &mut Vec, str::split_once, chars(): outside Verus): re-splitting a float after a dot keeps the tiling",
+        "split_projection_float_tokens: the emission half of its per-token closure is under contract (split_emit, rule X5: what is appended for a token -- the token or Int `.` Int -- tiles exactly the token's span, given head + 1 + tail == length); ASSUMED for the rest (the for_each over the tokens, `last().filter(..).and_then(..)`, str::split_once / chars(): outside Verus): re-splitting a float after a dot keeps the tiling, and the two lengths computed from `split_once('.')` add up to the token's length",
         "derive(PartialEq) on the field-less enum TokenKind is structural equality",
         "N10 helpers vx_map_append / vx_map_extend: HashMap::entry(k).or_default().append(&mut v) / .extend(v) append to the list under k (created empty if absent), leave other entries untouched",
         "green.rs is under contract (no builder model any more). Its trusted parts: model of slotmap::SlotMap<GreenNodeId, V> (finite map + ghost insertion stamp; insert returns a fresh key, never touches stored values; Index panics on a dead key); T-helpers with assumed std meaning vx_last_mut (Vec::last_mut), vx_drain_from (Vec::drain(pos..).collect()), vx_width_sum (the width bookkeeping of alloc_internal is dropped: widths play no part in the leaf sequence); byte length of a &str fits in usize",
